@@ -145,8 +145,12 @@ let judge_scratch q o scr =
   else None
 (* the transaction index: every transaction of an active block is found with that block — judged against the
    model's recomputation in the correspondence; here: synced *)
+let starts_with p s = String.length s >= String.length p && String.sub s 0 (String.length p) = p
 let holds _ _c impl =
   let obs = List.map String.trim (split_on_string " ; " impl) in
+  if starts_with "CRASH" impl || starts_with "EXC" impl then
+    "fail crash: the index code aborted (assert / Assert / exception) instead of following the chain"
+  else
   if List.exists (fun o -> o = "cs.initfail" || o = "tx.initfail" || o = "bf.initfail") obs then
     "fail restart-init: an index failed to initialise from its own database"
   else begin
